@@ -21,7 +21,7 @@ EPS_C = 2.0 ** -40
 LD = np.longdouble
 
 RULE = ("cases = (x, y, with_scale) with x,y 3xn float arrays; streams: generic / noisy (0-100% of extent) / mirrored "
-        "(optimal orthogonal map is a reflection) / planar (rank 2) / large offsets (1e6) / scales 1e-3..1e6 / exact "
+        "(optimal orthogonal map is a reflection) / structured sizes n in {1..4, 2^k-1, 2^k, 2^k+1 (k<=11), 1000, 2000} / planar (rank 2) / large offsets (1e6) / scales 1e-3..1e6 / exact "
         "integer grid / degenerate (unequal sizes, coincident, one coordinate axis, collinear off-axis, n<=2); evo's "
         "(R,t,c) as exact rationals must pass umeCert eps=2^-30 in the driver, refusal decisions compared exactly on "
         "degenerate classes and well-conditioned inputs; non-trivial = result returned on noisy/mirrored/planar data "
@@ -95,6 +95,20 @@ def gen_cases(ctx):
     yield mk("degenerate", np.repeat(np.array([[0.1], [0.2], [0.3]]), 7, axis=1),
              np.array([[1., 2, 3, 4, 0, 1, 5], [0, 1, 0, 2, 7, 1, 1], [1, 1, 0, 0, 2, 3, 9]]), False,
              corpus="coincident non-dyadic x (float mean inexact): needs the absolute floor of the rank test", deg="coincident")
+    # ---- structured sizes: every run sees n in {1,2,3,4, 2^k-1, 2^k, 2^k+1 (k=2..11), 1000, 2000} on noisy data
+    # (one dropped / doubled pair changes the optimum), both scale modes (large sizes: alternating in the quick tier)
+    grid = sorted(set([1, 2, 3, 4, 1000, 2000] + [2 ** k + d for k in range(2, 12) for d in (-1, 0, 1)]))
+    for idx, n in enumerate(grid):
+        both = ctx.thorough or n <= 257 or n in (513, 1025)
+        for ws in ([False, True] if both else [bool((idx + ctx.seed) % 2)]):
+            ext = logu(r, 1e-1, 1e2)
+            x = np.array([[r.gauss(0, 1) * ext * a for _ in range(n)] for a in (1.0, 0.7, 0.4)])
+            x = rand_rot(r) @ x + np.array([[r.gauss(0, 1) * ext] for _ in range(3)])
+            R0, c0 = rand_rot(r), (logu(r, 0.1, 10) if ws else 1.0)
+            lvl = r.choice([0.05, 0.2, 0.5])
+            y = c0 * (R0 @ x) + np.array([[r.gauss(0, 1) * ext] for _ in range(3)]) \
+                + np.array([[r.gauss(0, 1) * ext * c0 * lvl for _ in range(n)] for _ in range(3)])
+            yield mk("sized", x, y, ws, noise=lvl, size_grid=True)
     kinds = ["generic", "generic", "noisy", "noisy", "mirrored", "mirrored", "planar", "planar", "offset", "scales",
              "grid", "degenerate", "collinear", "tiny-n", "independent"]
     for k in range(budget):
@@ -282,8 +296,10 @@ def pts(a):
 
 def model_lines(case, impl):
     X, Y = pts(case["x"]), pts(case["y"])
-    lines = [f"C03 refuse {X} {Y}"]
-    if "R" in impl:
+    lines = []
+    if "R" not in impl:
+        lines.append(f"C03 refuse {X} {Y}")     # a returned result gets its refusal class from the umecert line
+    else:
         Rs = " ".join(rat(v) for row in impl["R"] for v in row)
         ts = " ".join(rat(v) for v in impl["t"])
         lines.append(f"C03 umecert {rat(EPS_CERT)} {1 if case['ws'] else 0} {X} {Y} {Rs} {ts} {rat(impl['c'])}")
@@ -385,8 +401,7 @@ def judge(ctx, case, impl, outs):
     x, y = arrays(case)
     ws = case["ws"]
     n = x.shape[1]
-    m_refuse, m_class = outs[0].split()
-    m_class = int(m_class)
+    m_class = int(outs[0].split()[1]) if outs[0] is not None else int(outs[1].split()[-1])
     refused = "err" in impl
     ctx.count("dist", "kind:" + case["kind"])
     ctx.count("dist", "with_scale" if ws else "rigid")
@@ -581,7 +596,7 @@ def judge(ctx, case, impl, outs):
             Re = RB @ R @ RA.T
             if float(np.abs(R2 - Re).max()) > 1e-8 * cond * (1 + float(np.abs(x).max()) / (ext_x + 1e-300)):
                 ctx.fail(case, "equivariance", "rotation of the transformed input is not the composed rotation")
-    nontrivial = case["kind"] in ("noisy", "mirrored", "planar", "independent", "offset", "scales", "grid")
+    nontrivial = case["kind"] in ("noisy", "mirrored", "planar", "independent", "offset", "scales", "grid", "sized")
     ctx.record(case, nontrivial)
 
 
@@ -626,7 +641,7 @@ def evaluate(ctx, cases):
         lines += ls
     outs = core.run_driver(lines)
     for c, i, (a, b) in zip(cases, impls, spans):
-        judge(ctx, c, i, outs[a:b])
+        judge(ctx, c, i, ([None] if "R" in i else []) + outs[a:b])
 
 
 OPEN = ["numpy.linalg.svd is not modelled: the exact theorems start from the certificate umeCert 0; the gap to evo's float "
